@@ -1,5 +1,6 @@
 import WhVerif.Util.Proto
 import WhVerif.Spec.C02Raw
+import WhVerif.Model.C02Bam
 import WhVerif.Driver.C01
 namespace WhVerif.Driver.C02
 open Lean WhVerif.Proto WhVerif.C01 WhVerif.C02
@@ -8,6 +9,20 @@ def pair? (j : Json) : Option (Nat × Nat) := do
   match ← asArr? j with
   | [a, b] => some (← asNat? a, ← asNat? b)
   | _ => none
+
+def rg? (j : Json) : Option WhVerif.C02Bam.RG := do
+  match ← asArr? j with
+  | [i, Json.null] => some ⟨← asStr? i, none⟩
+  | [i, sm] => some ⟨← asStr? i, some (← asStr? sm)⟩
+  | _ => none
+
+def aln? (j : Json) : Option WhVerif.C02Bam.Aln := do
+  match ← asArr? j with
+  | [n, g] => some ⟨← asStr? n, ← asStr? g⟩
+  | _ => none
+
+def bamFile? (j : Json) : Option WhVerif.C02Bam.BamFile := do
+  some ⟨← (← getList? j "rgs").mapM rg?, ← (← getList? j "alns").mapM aln?⟩
 
 def bool? : Json → Option Bool
   | Json.bool b => some b
@@ -42,6 +57,15 @@ def handle (op : String) (j : Json) : Option Json :=
         some (ofList (fun (r : RawRead) => Json.mkObj [("ind", ofNat r.ind),
           ("variants", ofList (fun v => ofNatList [v.1, v.2.1, v.2.2]) r.variants)]) (selectReads R.reads sel))
       | none => some badInput
+    | _, _ => some badInput
+  else if op == "c02.fetch" then
+    -- {"files": [{"rgs": [[id, SM|null]…], "alns": [[name, RG tag]…]}…], "sample": s}: the reads taken for the sample as
+    -- {"reads": [[source_id, name]…]} (`Model/C02Bam.fetch`), {"reads": null} = SampleNotFoundError
+    match (getList? j "files").bind (·.mapM bamFile?), getStr? j "sample" with
+    | some files, some s =>
+      match WhVerif.C02Bam.fetch files s with
+      | some rs => some (Json.mkObj [("reads", ofList (fun (x : Nat × WhVerif.C02Bam.Aln) => Json.arr #[ofNat x.1, Json.str x.2.name]) rs)])
+      | none => some (Json.mkObj [("reads", Json.null)])
     | _, _ => some badInput
   else none
 end WhVerif.Driver.C02
